@@ -1,6 +1,7 @@
 """C07 - COUNT, AVG and GROUP BY compute true aggregates."""
 import json
 import random
+import time
 
 import vlib
 import semlib
@@ -58,4 +59,83 @@ def run(ctx):
         semlib.execute(ctx, pool, cases, lambda c: c["_t"])
     finally:
         pool.close()
-    report(ctx, cases, "C07", "c07")
+    big = many_groups(ctx, binary, rng)
+    report(ctx, cases, "C07", "c07", extra_cov=dict(many_groups=big))
+
+
+BIG_N = {"quick": 150000, "thorough": 400000}
+
+
+def many_groups(ctx, binary, rng):
+    """Tables in which every row is a group of its own, 10^5 of them (an implementation that identifies a group by a
+    32-bit digest of its key merges two of 150 000 groups with probability 0.93 per grouping column - and there are two, integers and words -, of 400 000 with certainty): integer and
+    string grouping values.  Judged by SqlSem!DistinctGroupsOK - ResultOK specialised to such tables, see SqlSem.tla -
+    and small tables of the same shape are judged by both predicates, which must agree."""
+    def cell(t, v=0, s=()):
+        return dict(t=t, v=v, s=list(s))
+
+    def table(n):
+        # p: n distinct integers; u: n distinct words of 3-10 letters; m: the averaged column
+        # (values without regularity: digests behave better than chance on counters and on words in dictionary order)
+        ps = rng.sample(range(1, 2 ** 31 - 1), n)
+        us = set()
+        while len(us) < n:
+            us.add(tuple(rng.randrange(97, 123) for _ in range(rng.randrange(3, 11))))
+        us = sorted(us)
+        rng.shuffle(us)
+        rows = [[cell("i", ps[i]), cell("i", (i * 7) % 1000), cell("s", 0, us[i])] for i in range(n)]
+        return dict(cols=[dict(n="p", ty="i"), dict(n="m", ty="i"), dict(n="u", ty="s")], rows=rows)
+
+    def item(k, c=""):
+        nul = dict(q="", c="", k="lit", val=dict(v=0, t="n", s=[]))
+        return dict(k=k, ref=dict(q="", c=c), cmp=dict(l=nul, op="=", r=nul), alias="")
+
+    def queries(style):
+        return [dict(**{"from": FROM7}, where=[], list=[item("col", g), item("count"), item("avg", "m")], group=[dict(q="", c=g)],
+                     order=[], limit=-1, offset=-1, style=style) for g in ("p", "u")]
+    cases = []
+    for k, n in enumerate([BIG_N[ctx.tier], 40 + rng.randrange(40), 3 + rng.randrange(5)]):
+        tab = table(n)
+        for q in queries(k):
+            cases.append(dict(db={"t7": tab}, q=q, _t=("distinct", n), small=n < 1000))
+    pool = vlib.WorkerPool(ctx, binary, n=2, request_timeout=900)
+    t0 = time.time()
+    try:
+        semlib.execute(ctx, pool, cases, lambda c: c["_t"])
+    finally:
+        pool.close()
+    t_exec = time.time() - t0
+    t0 = time.time()
+    got = []
+    live = [c for c in cases if not c["res"].get("panic") and not c["res"].get("hang")]
+    if live:
+        nd = "".join(json.dumps(dict(db=c["db"], q=c["q"], small=c["small"],
+                                     res=dict(err=bool(c["res"]["err"]), cols=c["res"]["cols"], rows=c["res"]["rows"]))) + "\n" for c in live)
+        r = vlib.run_tlc(ctx, "SqlSemBigJudge", "SqlSemGen.cfg", workers=1, timeout=2400, tag="c07-big", files={"cases.ndjson": nd},
+                         on_scn=lambda k, o: got.append(o), xss="1g", heap="12g")
+        if r.status != "ok" or not got or got[0]["n"] != len(live):
+            raise vlib.Undecided("SqlSemBigJudge failed\n%s" % "\n".join(r.out[-25:]))
+        if got[0]["noshape"]:
+            raise vlib.Undecided("many-groups cases %s are not of the shape DistinctGroupsOK is about" % got[0]["noshape"])
+        if got[0]["disagree"]:
+            raise vlib.Undecided("SqlSem!DistinctGroupsOK and ResultOK disagree on small cases %s" % got[0]["disagree"])
+    bad = [live[j - 1] for j in (got[0]["bad"] if got else [])]
+    for c in cases:
+        r = c["res"]
+        what = None
+        if r.get("panic"):
+            what = "the engine panicked: " + r["panic"].splitlines()[0]
+        elif r.get("hang"):
+            what = "the engine hung"
+        elif any(c is b for b in bad):
+            n = len(c["db"]["t7"]["rows"])
+            what = "result rejected by DistinctGroupsOK (SqlSem.tla): %d rows with pairwise distinct grouping values, %d result rows%s" % (
+                n, len(r.get("rows") or []), (", engine error `%s`" % r.get("msg")) if r.get("err") else "")
+        if what:
+            small_db = c["db"] if c["small"] else dict(t7=dict(cols=c["db"]["t7"]["cols"], rows=c["db"]["t7"]["rows"][:20], rows_total=len(c["db"]["t7"]["rows"]),
+                                                               rows_rule="p: distinct random integers below 2^31, m = 7i % 1000, u: distinct random words of 3-10 letters (seeded)"))
+            vlib.report_violation(ctx, dict(kind="sem-many-groups", sql=r.get("sql"), db=small_db, query=c["q"],
+                                            result=dict(err=r.get("err"), msg=r.get("msg"), rows_returned=len(r.get("rows") or []), first_rows=(r.get("rows") or [])[:20]),
+                                            detail=[what]), signature="many-groups|" + c["q"]["group"][0]["c"])
+    return dict(cases=len(cases), rows_of_the_largest=BIG_N[ctx.tier], rejected=len(bad), seconds_engine=round(t_exec, 1), seconds_tlc=round(time.time() - t0, 1),
+                rule="one table row = one group; judged by SqlSem!DistinctGroupsOK, which the small cases show to agree with ResultOK")
